@@ -193,15 +193,25 @@ def _from_param(b, local, param, depth=6):
     return param in cur
 
 
-def r2_tables(ctx, prog):
+def r2_tables(ctx, prog, evaluated=False):
     r = Rule("C20.R2", "formatter -> option family and plural detection tables are exact",
              "`plural data if and only if some key is a plural, and each formatter family's data if and only if that formatter is used`",
-             floor=9)
+             floor=2 if evaluated else 9)
     ast = ctx.ast
     fn = ast.fn(DK, "find_used_datakey")
     if fn is None:
         r.missing("find_used_datakey")
         return r
+    if evaluated:
+        # the tables themselves are decided by R0 (evaluation); here: the enum the table must cover, and who records counts
+        e = ast.enum("leptos_i18n_parser/src/utils/formatter.rs", "Formatter")
+        ev = sorted(v["name"] for v in e["variants"]) if e else []
+        want = dict(FMT2OPT, **{"None": "<skip>"})
+        if ev != sorted(want):
+            r.viol("R2:formatter-table#variants", "Formatter has variants %s, the evaluated universe (R0) knows %s" % (ev, sorted(want)), file=DK)
+        else:
+            r.inst("Formatter variants", "%s: all of them are in the universe evaluated by R0" % ", ".join(ev))
+        return _r2_writers(ctx, prog, r)
     got = {}
     wild = False
     for m in find_all(fn.body, "Match"):
@@ -242,6 +252,10 @@ def r2_tables(ctx, prog):
         r.inst("plural detection", "Options::Plurals inserted exactly when range_count == Some(Plural)")
     else:
         r.viol("R2:plural-detection", "Options::Plurals is not inserted exactly under `range_count == Some(RangeOrPlural::Plural)`", file=fn.file, line=fn.line)
+    return _r2_writers(ctx, prog, r)
+
+
+def _r2_writers(ctx, prog, r):
     # push_count is the only writer of range_count, Plural only from the Plurals arm (C08.R1 checks the arm itself)
     b = prog.body("leptos_i18n_parser::parse_locales::locale::InterpolationKeys::push_count")
     if b is None:
@@ -381,9 +395,172 @@ def r4_locales(ctx, prog):
     return r
 
 
+def r0_options(ctx):
+    """abstract evaluation (rules/absint.py) of get_icu_keys / get_icu_keys_inner / find_used_datakey on generated key
+    trees with plurals and formatters placed anywhere, of the locale accessors and of build_datagen_driver; the expected
+    option set is computed from the tree"""
+    import itertools
+    from rules import absint
+    from rules.absint import AEval, A, C, CF, L, T, UNIT
+    r = Rule("C20.R0", "derived options = exactly the plural / formatter families present anywhere in the key tree",
+             "`include plural data iff some key - in any locale or namespace, at any subkey depth - is a plural, and each formatter "
+             "family's data iff that formatter is used; the locales it reports are exactly the configured ones`", floor=4)
+    ast = ctx.ast
+    funcs = dict(absint.file_funcs(ast, DK))
+    funcs.update(absint.file_funcs(ast, BL, impl_self="TranslationsInfos"))
+    # the parser's accessors of the key information (reached by method name on the values below)
+    pf = absint.file_funcs(ast, PL)
+    for q in ("InterpolOrLit::is_interpol", "InterpolationKeys::iter_vars", "InterpolationKeys::iter_keys", "InterpolationKeys::iter_comps"):
+        if q in pf:
+            funcs[q] = pf[q]
+            funcs.setdefault(q.split("::")[1], pf[q])
+    gk = funcs.get("TranslationsInfos::get_icu_keys")
+    fud = funcs.get("find_used_datakey")
+    if gk is None or fud is None:
+        r.missing("TranslationsInfos::get_icu_keys / find_used_datakey")
+        return r, False, "anchor missing"
+    S = lambda x: ("str", x)  # noqa: E731
+    FAM = {"Number": "FormatNums", "Date": "FormatDateTime", "Time": "FormatDateTime", "DateTime": "FormatDateTime", "List": "FormatList", "Currency": "FormatCurrency"}
+
+    def fmt_value(k):
+        return C(k) if k == "None" else (C(k, A("o")) if k in ("Number", "Date", "Time") else C(k, A("o1"), A("o2")))
+
+    def var(count=None, fmts=()):
+        return CF("VarInfo", range_count=C("None") if count is None else C("Some", C("Plural") if count == "plural" else C("Range", A("i32"))),
+                  formatters=L(*[fmt_value(k) for k in fmts]))
+
+    def value(*vars_):
+        return CF("Value", value=C("Interpol", CF("InterpolationKeys", variables=L(*[T(S("v%d" % i), v) for i, v in enumerate(vars_)]), components=L())), defaults=A("d"))
+
+    def lit():
+        return CF("Value", value=C("Lit", C("String")), defaults=A("d"))
+
+    def sub(keys):
+        return CF("Subkeys", keys=bki(keys), locales=L())
+
+    def bki(keys):
+        return CF("BuildersKeysInner", **{"0": L(*[T(S("k%d" % i), v) for i, v in enumerate(keys)])})
+
+    def expected(node, out):
+        k = node[1]
+        fs = absint.fields_of(node)
+        if k == "BuildersKeysInner":
+            for x in fs["0"][1]:
+                expected(x[1][1], out)
+        elif k == "Subkeys":
+            expected(fs["keys"], out)
+        elif k == "Value" and fs["value"][1] == "Interpol":
+            for x in absint.fields_of(fs["value"][2][0])["variables"][1]:
+                vi = absint.fields_of(x[1][1])
+                if vi["range_count"] == C("Some", C("Plural")):
+                    out.add("Plurals")
+                for f in vi["formatters"][1]:
+                    if f[1] in FAM:
+                        out.add(FAM[f[1]])
+
+    def mk():
+        ev = AEval(funcs=funcs, builtins={"into_data_keys": lambda rv, a: L(rv)})
+        ev.type_of_ctor = {"Interpol": "InterpolOrLit", "Lit": "InterpolOrLit", "InterpolationKeys": "InterpolationKeys"}
+        ev.path_builtins = {"datakey::get_keys": lambda a: a[0], "get_keys": lambda a: a[0], "Options::into_data_keys": lambda a: L(a[0])}
+        return ev
+    # value atoms: every family alone, None before / after a formatter, plural / range counts, several variables
+    atoms = [lit(), value(var()), value(var(fmts=("None",))), value(var("plural")), value(var("range")), value(var(fmts=("None", "Number"))), value(var(fmts=("Number", "None"))),
+             value(var(fmts=("Date",))), value(var(fmts=("Time",))), value(var(fmts=("DateTime",))), value(var(fmts=("List",))), value(var(fmts=("Currency",))),
+             value(var(), var("plural", ("List",))), value(var(fmts=("None",)), var(fmts=("Currency", "Date")))]
+    five = [value(var("plural")), value(var(fmts=("Date",))), value(var(fmts=("List",))), value(var(fmts=("Number",))), value(var(fmts=("Currency",)))]
+    trees = [[a] for a in atoms]
+    trees += [[lit(), a] for a in atoms[3:]] + [[sub([a])] for a in atoms[3:]] + [[lit(), sub([lit(), sub([a])])] for a in atoms[3:8]]
+    trees += [list(p) for p in itertools.permutations(five)][:: (1 if ctx.tier == "thorough" else 7)]
+    trees += [five[:4] + [sub([lit(), five[4]])], [sub(five[:4]), five[4]], [sub([sub(five[1:])]), five[0]]]
+    n = 0
+    bad = None
+    for tr in trees:
+        for shape in ("locales", "namespaces-last", "namespaces-first"):
+            if shape == "locales":
+                bk = CF("Locales", keys=bki(tr), locales=L())
+            else:
+                # the interesting keys only in one namespace, the other namespaces hold literals (and all five families once)
+                others = [bki([lit()]), bki(five[:2])] if len(tr) < 5 else [bki([lit()])]
+                maps = others + [bki(tr)] if shape == "namespaces-last" else [bki(tr)] + others
+                bk = CF("NameSpaces", keys=L(*[T(S("ns%d" % i), m) for i, m in enumerate(maps)]), namespaces=L())
+            want = set()
+            if shape == "locales":
+                expected(bki(tr), want)
+            else:
+                for m in maps:
+                    expected(m, want)
+            this = CF("TranslationsInfos", locales=bk, locales_names=L(S("en"), S("fr")), paths=L())
+            ev = mk()
+            got = ev.run_fn(gk, [this])
+            if isinstance(got, str):
+                return r, False, got
+            n += 1
+            have = {x[1] for x in got[1]} if got[0] == "list" else None
+            if have != want and bad is None:
+                bad = "a project (%s) whose keys are %s: derived options %s, present families %s" % (
+                    shape, absint.fmt(bki(tr))[:300], sorted(have) if have is not None else absint.fmt(got), sorted(want))
+    if bad:
+        r.viol("R0:get_icu_keys#options", bad, file=DK, line=fud.line)
+    else:
+        r.inst("get_icu_keys", "%d key trees (families alone / together in every order, `None` formatters around real ones, plural vs range counts, sub-key depth <= 3, one of several namespaces): derived options = families present" % n)
+    # locales: reported = configured, in order
+    gl = funcs.get("TranslationsInfos::get_locales")
+    if gl is not None:
+        names = L(S("en"), S("fr-CA"), S("zh"))
+        got = AEval(funcs=funcs).run_fn(gl, [CF("TranslationsInfos", locales=A("keys"), locales_names=names, paths=L())])
+        if isinstance(got, str):
+            return r, False, got
+        if got != names:
+            r.viol("R0:get_locales", "with configured locales [en, fr-CA, zh] get_locales yields %s" % absint.fmt(got), file=BL, line=gl.line)
+        else:
+            r.inst("get_locales", "the stored list of configured locales, unfiltered, in order")
+    pi = funcs.get("TranslationsInfos::parse_inner")
+    if pi is not None:
+        K = lambda n_: CF("Key", name=S(n_))  # noqa: E731
+        cfg = CF("ConfigFile", default=K("en"), locales=L(K("en"), K("fr-CA"), K("zh")), name_spaces=C("Some", L()), locales_dir=S("locales"), translations_uri=C("None"), extensions=L())
+        ev = AEval(funcs=funcs, builtins={"parse": lambda rv, a: C("Ok", A("langid"))})
+        ev.path_builtins = {"parse_locales::parse_locales_raw": lambda a: C("Ok", T(A("raw"), cfg, A("fkp"), A("warnings"), L(S("p1")))),
+                            "parse_locales::make_builder_keys": lambda a: C("Ok", A("builder-keys"))}
+        got = ev.run_fn(pi, [C("None")])
+        if isinstance(got, str):
+            return r, False, got
+        ok = got[0] == "ctor" and got[1] == "Ok" and got[2] and got[2][0][0] == "ctor"
+        ln = absint.fields_of(got[2][0]).get("locales_names") if ok else None
+        if ln != L(S("en"), S("fr-CA"), S("zh")):
+            r.viol("R0:parse_inner#locales_names", "with configured locales [en, fr-CA, zh] (and no namespace) parse_inner stores %s" % (absint.fmt(ln) if ln else absint.fmt(got)[:120]), file=BL, line=pi.line)
+        else:
+            r.inst("parse_inner", "locales_names = the configuration's locale list (also with an empty namespace list)")
+    bd = funcs.get("TranslationsInfos::build_datagen_driver_with_data_keys")
+    if bd is not None:
+        log = {}
+        ev = AEval(funcs=funcs, builtins={
+            "get_icu_keys": lambda rv, a: L(A("detected-1"), A("detected-2")), "get_locales_langids": lambda rv, a: L(A("en"), A("fr")),
+            "with_keys": lambda rv, a: (log.__setitem__("keys", a[0]), rv)[1], "with_locales_no_fallback": lambda rv, a: (log.__setitem__("locales", a[0]), rv)[1]})
+        ev.path_builtins = {"DatagenDriver::new": lambda a: A("driver")}
+        got = ev.run_fn(bd, [CF("TranslationsInfos", locales=A("k"), locales_names=L(), paths=L()), L(A("user-1"))])
+        if isinstance(got, str):
+            return r, False, got
+        kk = set(log.get("keys", L())[1]) if log.get("keys", ("x",))[0] == "list" else None
+        if kk != {A("detected-1"), A("detected-2"), A("user-1")} or log.get("locales") != L(A("en"), A("fr")):
+            r.viol("R0:build_datagen_driver_with_data_keys", "the driver receives keys %s and locales %s: expected the detected keys plus the caller's, and the configured locales" % (
+                absint.fmt(log.get("keys")) if log.get("keys") else None, absint.fmt(log.get("locales")) if log.get("locales") else None), file=BL, line=bd.line)
+        else:
+            r.inst("build_datagen_driver_with_data_keys", "keys = detected + caller's; locales = the configured ones")
+    return r, True, None
+
+
 def run(ctx):
+    import os
     prog = ctx.mir("main")
-    return [r1_walk(ctx, prog), r2_tables(ctx, prog), r3_data_closure(ctx), r4_locales(ctx, prog)]
+    r0, ok, why = r0_options(ctx)
+    if ok and not os.environ.get("VERIF_FORCE_FALLBACK"):
+        r2 = r2_tables(ctx, prog, evaluated=True)
+        return [r0, r2, r3_data_closure(ctx)]
+    if not ok and not r0.violations:
+        r0.instances[:] = []
+        r0.inst("evaluation not available", "fallback to the structural rules R1 / R4: %s" % str(why)[:160])
+        r0.floor = 1
+    return [r0, r1_walk(ctx, prog), r2_tables(ctx, prog), r3_data_closure(ctx), r4_locales(ctx, prog)]
 
 
 MANIFEST_ENTRY = {
